@@ -179,7 +179,7 @@ theorem loop4_spec (bits r : Nat) (hr : 2 ≤ r) (hr36 : r ≤ 36)
 
 /-- `while value >= radix2` -/
 theorem loop2_spec (bits r : Nat) (hr : 2 ≤ r) (hr36 : r ≤ 36) (hb64 : bits ≤ 64)
-    (hw : ∀ v, v < 2 ^ bits → 2 * (v % (r * r)) < 2 ^ bits) :
+    (hw : ∀ v, r * r ≤ v → v < 2 ^ bits → 2 * (v % (r * r)) < 2 ^ bits) :
     ∀ (value fuel : Nat) (pre suf : List Nat),
     value < 2 ^ bits → value < 2 ^ fuel → 1 ≤ fuel → (toDigits r value).length ≤ pre.length → pre.length < 2 ^ 64 →
     ∃ v' ds pre', v' < r * r ∧ toDigits r value = toDigits r v' ++ ds ∧
@@ -210,7 +210,7 @@ theorem loop2_spec (bits r : Nat) (hr : 2 ≤ r) (hr36 : r ≤ 36) (hb64 : bits 
       have hbm : n % (r * r) < r * r := Nat.mod_lt _ (by omega)
       have h264 : (2:Nat) ^ bits ≤ 2 ^ 64 := Nat.pow_le_pow_right (by omega) hb64
       have e2 : 2 * (n % (r * r)) % 2 ^ bits % usz = 2 * (n % (r * r)) := by
-        have hx := hw n hnb
+        have hx := hw n h hnb
         rw [Nat.mod_eq_of_lt hx, Nat.mod_eq_of_lt (by unfold usz; omega)]
       obtain ⟨p2, hp2l, hput2⟩ := put2_spec r _ pre suf hbm (by omega) hpre
       have hf' : n / (r * r) < 2 ^ f := div_lt_two_pow n _ f hR2 hf
@@ -272,7 +272,7 @@ theorem writeDigits_eq (bits value radix : Nat) (buf : Buf) (index : Nat) :
 theorem writeDigits_spec (bits r value : Nat) (hr : 2 ≤ r) (hr36 : r ≤ 36) (hb8 : 8 ≤ bits) (hb64 : bits ≤ 64)
     (hv : value < 2 ^ bits)
     (H4 : (bits ≥ 32 ∨ (r * r) * (r * r) < maxAsU32 bits) → (r * r) * (r * r) < 2 ^ bits ∧ 2 * (r * r) ≤ 2 ^ bits)
-    (H2 : (bits ≥ 16 ∨ r * r < maxAsU32 bits) → r * r < 2 ^ bits ∧ ∀ v, v < 2 ^ bits → 2 * (v % (r * r)) < 2 ^ bits)
+    (H2 : (bits ≥ 16 ∨ r * r < maxAsU32 bits) → r * r < 2 ^ bits ∧ ∀ v, r * r ≤ v → v < 2 ^ bits → 2 * (v % (r * r)) < 2 ^ bits)
     (HN2 : ¬ (bits ≥ 16 ∨ r * r < maxAsU32 bits) → 2 ^ bits ≤ r * r)
     (pre suf : List Nat) (hlen : (toDigits r value).length ≤ pre.length) (hp64 : pre.length < 2 ^ 64) :
     ∃ pre', pre'.length + (toDigits r value).length = pre.length ∧
@@ -348,5 +348,85 @@ theorem writeDigits_spec (bits r value : Nat) (hr : 2 ≤ r) (hr36 : r ≤ 36) (
   refine ⟨pre3, ?_, ?_⟩
   · rw [hd1, hd2]; simp; omega
   · rw [List.append_assoc, hfin]; simp [numeral, hd1, hd2]
+
+end LexVerif.Model.WriteInt
+
+namespace LexVerif.Model.WriteInt
+open LexVerif.Spec
+
+theorem u8_pair_no_wrap : ∀ r, r < 16 → ∀ v, v < 256 → 2 ≤ r → r * r ≤ v → 2 * (v % (r * r)) < 256 := by decide +kernel
+
+def SmallBits (b : Nat) : Prop := b = 8 ∨ b = 16 ∨ b = 32 ∨ b = 64
+
+/-- the three width side conditions of `writeDigits_spec` hold for u8/u16/u32/u64 and every radix -/
+theorem widths_ok (bits r : Nat) (hb : SmallBits bits) (hr : 2 ≤ r) (hr36 : r ≤ 36) :
+    ((bits ≥ 32 ∨ (r * r) * (r * r) < maxAsU32 bits) → (r * r) * (r * r) < 2 ^ bits ∧ 2 * (r * r) ≤ 2 ^ bits) ∧
+    ((bits ≥ 16 ∨ r * r < maxAsU32 bits) → r * r < 2 ^ bits ∧ ∀ v, r * r ≤ v → v < 2 ^ bits → 2 * (v % (r * r)) < 2 ^ bits) ∧
+    (¬ (bits ≥ 16 ∨ r * r < maxAsU32 bits) → 2 ^ bits ≤ r * r) := by
+  have h2 := sq_le_36 r hr36
+  have h4 := r4_le r hr36
+  have hpos : 0 < r * r := Nat.mul_pos (by omega) (by omega)
+  have hmod : ∀ v, v % (r * r) < r * r := fun v => Nat.mod_lt v hpos
+  rcases hb with h | h | h | h <;> subst h
+  · -- u8
+    have m8 : maxAsU32 8 = 255 := by decide
+    rw [m8]
+    have hcase : r ≤ 15 ∨ 16 ≤ r := by omega
+    refine ⟨?_, ?_, ?_⟩
+    · intro c
+      have c' : r * r * (r * r) < 255 := by omega
+      have : r * r < 16 := by
+        rcases Nat.lt_or_ge (r * r) 16 with h | h
+        · exact h
+        · have := Nat.mul_le_mul h h; omega
+      omega
+    · intro c
+      have c' : r * r < 255 := by omega
+      have hr15 : r < 16 := by
+        rcases hcase with h | h
+        · omega
+        · have := Nat.mul_le_mul h h; omega
+      exact ⟨by omega, fun v hge hv => u8_pair_no_wrap r hr15 v hv hr hge⟩
+    · intro c
+      rcases hcase with h | h
+      · have := Nat.mul_le_mul h h; omega
+      · have := Nat.mul_le_mul h h; omega
+  · have m : maxAsU32 16 = 65535 := by decide
+    rw [m]
+    refine ⟨fun _ => by omega, fun _ => ⟨by omega, fun v _ _ => by have := hmod v; omega⟩, fun c => by omega⟩
+  · refine ⟨fun _ => by omega, fun _ => ⟨by omega, fun v _ _ => by have := hmod v; omega⟩, fun c => by omega⟩
+  · refine ⟨fun _ => by omega, fun _ => ⟨by omega, fun v _ _ => by have := hmod v; omega⟩, fun c => by omega⟩
+
+/-! ## digit counts -/
+
+/-- `while value >= d { digits += k; value /= d }` with `d = r^k` -/
+theorem countLoop_spec (r k : Nat) (hr : 2 ≤ r) (hk : 1 ≤ k) :
+    ∀ (value fuel digits : Nat), value < 2 ^ fuel → 1 ≤ fuel →
+    ∃ v' j, v' < r ^ k ∧ (toDigits r value).length = (toDigits r v').length + k * j ∧ v' ≤ value ∧
+      countLoop (r ^ k) k fuel value digits = .ok (v', digits + k * j) := by
+  have hd : 2 ≤ r ^ k := by
+    calc 2 ≤ r := hr
+      _ = r ^ 1 := by simp
+      _ ≤ r ^ k := Nat.pow_le_pow_right (by omega) hk
+  intro value
+  induction value using radix_induction (r ^ k) hd with
+  | base n h =>
+    intro fuel digits _ hf1
+    refine ⟨n, 0, h, by simp, Nat.le_refl _, ?_⟩
+    cases fuel with
+    | zero => omega
+    | succ f => simp [countLoop, Nat.not_le.mpr h]
+  | step n h ih =>
+    intro fuel digits hf hf1
+    cases fuel with
+    | zero => omega
+    | succ f =>
+      obtain ⟨v', j, hv', hl, hle, hrun⟩ := ih f (digits + k) (div_lt_two_pow n _ f hd hf) (fuel_pos_of n f (by omega) hf)
+      refine ⟨v', j + 1, hv', ?_, Nat.le_trans hle (Nat.div_le_self _ _), ?_⟩
+      · rw [toDigits_split r hr k n h]; simp [hl, Nat.mul_add]; omega
+      · simp only [countLoop, ge_iff_le, h, if_true]
+        rw [if_neg (by omega), hrun, Nat.mul_add]; simp; omega
+
+
 
 end LexVerif.Model.WriteInt
